@@ -44,6 +44,8 @@ def shapes(tier):
     for kind in ('node', 'edge'):
         for n in (1, 2):
             out.append(dict(part='sync_tombstones', kind=kind, n=n, engine='c09'))
+    for fn in ('date', 'date_next_day'):
+        out.append(dict(part='date_fn', fn=fn))
     for vt in VAR_TYPES:
         for pv in PARAM_VALUES + ['missing']:
             out.append(dict(part='params', vt=vt, pv=pv))
@@ -83,7 +85,30 @@ def explore(ctx, shape, tier, report):
         s2 = dict(shape)
         s2.pop('engine')
         return c09.explore(ctx, s2, tier, C09Report(report), dates_in_range=False)
-    return {'params': explore_params, 'verify': explore_verify}[shape['part']](ctx, shape, tier, report)
+    return {'params': explore_params, 'verify': explore_verify, 'date_fn': explore_date_fn}[shape['part']](ctx, shape, tier, report)
+
+
+def explore_date_fn(ctx, shape, tier, report):
+    """date() / date_next_day() receive dates taken from rows and requests of peers: total on every i64"""
+    fn = ctx.func(shape['fn'])
+
+    def path(ctx):
+        w = World(ctx)
+        x = w.i64('date')
+        info = dict(part='date_fn', shape=shape, x=x)
+        try:
+            r = ctx.exec_fn(fn, [x])
+        except Panic as p:
+            report.panic(ctx, w, p, info)
+            return
+        report.path(True)
+        report.witness('no-panic')
+
+    ctx.enable_merge = False
+    try:
+        ctx.explore(path)
+    finally:
+        ctx.enable_merge = True
 
 
 def param_value(w, pv, tag):
@@ -205,6 +230,9 @@ def scenario(ctx, m, kind, info):
         sc = c09.scenario(ctx, m, kind, info)
         sc['property'] = 'C14'
         return sc
+    if info.get('part') == 'date_fn':
+        c = Concretizer(m)
+        return dict(kind='date_fn', property='C14', fn=info['shape']['fn'], date=c.int(info['x']), expect=dict(result='panic'))
     sc = dict(kind='not-replayable', property='C14', part=info.get('part'), shape=info.get('shape'))
     if kind == 'panic':
         sc['expect'] = dict(result='panic')
@@ -222,7 +250,7 @@ def kani_scenarios(h, res):
         pb = [p for p in res['playback'] if p['kind'] == 'assertion' and p['description'] == f['description']]
         sc = dict(kind='bytes_decoder', property='C14', fn=h['fn'], kani_check=f, expect=dict(result='panic'),
                   what='%s panics: %s at %s' % (h['what'], f['description'], f['location']),
-                  signature='panic:%s:%s' % (h['fn'], f['description'].split(':')[0]))
+                  signature='panic:%s:%s' % (h['fn'], f['location'].split(' in function ')[-1] if 'placeholder' in f['description'] else f['description'].split(':')[0]))
         if pb:
             vals = pb[0]['values']
             ln = int.from_bytes(bytes(vals[0]), 'little') if vals else 0
